@@ -197,9 +197,24 @@ Proof.
   assert (Hb : In r (bucket t a)) by (unfold bucket; apply filter_In; split; [exact Hr|now apply String.eqb_eq]).
   specialize (B r Hb). apply row_mem_In in B. unfold bucket in B. apply filter_In in B. tauto.
 Qed.
+Lemma srev_involutive s : srev (srev s) = s.
+Proof.
+  unfold srev. now rewrite list_ascii_of_string_of_list_ascii, rev_involutive, string_of_list_ascii_of_string.
+Qed.
+Lemma rrow_involutive r : rrow (rrow r) = r.
+Proof.
+  destruct r as [|t rest]; [reflexivity|]. cbn. f_equal. rewrite map_map. rewrite <- (map_id rest) at 2.
+  apply map_ext. intros x. apply srev_involutive.
+Qed.
+Lemma In_map_rrow r l : In (rrow r) (map rrow l) -> In r l.
+Proof.
+  intros H. apply in_map_iff in H as (r' & E & Hr). apply (f_equal rrow) in E. rewrite !rrow_involutive in E. now subst.
+Qed.
 Lemma rows_eq_fast_sound a b : rows_eq_fast a b = true -> set_eq a b.
 Proof.
-  unfold rows_eq_fast. rewrite andb_true_iff. intros [H1 H2] r. split; apply rows_subset_fast_sound; assumption.
+  unfold rows_eq_fast. cbv zeta. rewrite andb_true_iff. intros [H1 H2] r. split; intros Hr.
+  - apply In_map_rrow. apply (rows_subset_fast_sound _ _ H1). now apply in_map.
+  - apply In_map_rrow. apply (rows_subset_fast_sound _ _ H2). now apply in_map.
 Qed.
 Theorem case_ok_sound H rs obs both : case_ok (H, rs, obs, both) = true -> set_eq obs (views (meta (replace_seq_hier H rs))).
 Proof.
